@@ -71,6 +71,10 @@ need_recode(const char *buf, off_t len)
 		pos++;
 	}
 
+	/* the last line may be unterminated */
+	if (llen > 998)
+		res |= long_flag;
+
 	return res;
 }
 
